@@ -8,6 +8,6 @@ require (
 	github.com/mdzio/go-mqtt v0.0.0
 )
 
-require github.com/gorilla/websocket v1.5.0 // indirect
+require github.com/gorilla/websocket v1.5.0
 
 replace github.com/mdzio/go-mqtt => /repo
